@@ -93,4 +93,21 @@ third of the cases, also under colliding names, class `config-collision`) -/
 theorem requestid_before_addHeaders :
     Generated.C08.requestIDSets = 1 ∧ Generated.C08.requestIDSetsBeforeAddHeaders = 1 := by decide
 
+/-- every header field of `config.Proxy` is bound to its documented option, of the right kind, defaulting to the
+default configuration, which sets none of them except `LocalIP` (`config/load.go`) — `c08.main` starts the real
+executable with the options on the command line, in the environment and in a properties file (classes `/arg`,
+`/env`, `/file`, `/defaults`) and compares what the upstream receives with `Model.C08.loadCfg` composed with
+`serveHTTP`; an obligation until round 3, when no stream ran `config.Load` -/
+theorem header_options_bound :
+    Generated.C08.headerOptionBindings =
+      ["proxy.header.clientip -> ClientIPHeader : String : default",
+       "proxy.header.requestid -> RequestID : String : default",
+       "proxy.header.sts.maxage -> STSHeader.MaxAge : Int : default",
+       "proxy.header.sts.preload -> STSHeader.Preload : Bool : default",
+       "proxy.header.sts.subdomains -> STSHeader.Subdomains : Bool : default",
+       "proxy.header.tls -> TLSHeader : String : default",
+       "proxy.header.tls.value -> TLSHeaderValue : String : default",
+       "proxy.localip -> LocalIP : String : default"] ∧
+    Generated.C08.headerDefaultsSet = ["LocalIP"] := by decide
+
 end Fabio.Props.C08Pins
